@@ -273,6 +273,17 @@ def rule_B(run, prog):
     run.obligation(rid, "DFunction (upper-half axis)", not nf, key="upper-half-prefactor",
                    message="upper-half forward factor times the 1/(2N) of ifft is not dt: %s" % show_normal(nf, 3),
                    loc="quantarhei/core/dfunction.py", sample={"forward": show_normal(normal(up))})
+    # the conjugate transform of a function on an upper-half time axis: fft is not normalised, so the direct sum
+    # sum_n f(t_n) exp(-i w t_n) dt over the Hermitian-extended data has the prefactor dt and nothing else
+    up2 = res.get(("get_inverse_Fourier_transform", "fft", "ext", "time"))
+    if up2 is None:
+        raise AnalysisError("C13-B: upper-half prefactor of the inverse transform not found")
+    nf = normal(up2 - S("dt"))
+    run.obligation(rid, "DFunction (upper-half axis, inverse transform)", not nf, key="upper-half-prefactor-inverse",
+                   message="the inverse transform of a function on an upper-half time axis carries the prefactor %s where "
+                           "the Fourier sum over the extended data has dt: followed by the forward transform it does not "
+                           "return the original values" % show_normal(normal(up2)),
+                   loc="quantarhei/core/dfunction.py", sample={"prefactor": show_normal(normal(up2))})
     return res
 
 
